@@ -3,6 +3,7 @@
 * This file is part of BitSerializer library, licensed under the MIT license.  *
 *******************************************************************************/
 #pragma once
+#include <type_traits>
 #include <cstddef>
 
 namespace BitSerializer::Detail
@@ -25,7 +26,13 @@ namespace BitSerializer::Detail
 			size_t loadedItems = 0;
 			for (auto it = cont.begin(); it != cont.end() && !arrayScope.IsEnd(); ++it, ++loadedItems)
 			{
-				Serialize(arrayScope, *it);
+				if (!Serialize(arrayScope, *it))
+				{
+					// The previous content of container must not survive in an item which was not loaded
+					if constexpr (std::is_move_assignable_v<typename TContainer::value_type>) {
+						*it = typename TContainer::value_type();
+					}
+				}
 			}
 			// Load all left items
 			for (; !arrayScope.IsEnd(); ++loadedItems)
